@@ -522,6 +522,7 @@ class Engine:
                 st.pc.append(unwrap(c.ensures(ons, res, NS(new), g)))
             else: st.pc.append(unwrap(c.ensures(ons, res, NS(new))))
         st.env['$ret.' + c.key.split('.')[-1]] = res
+        for m in c.modifies: st.env[f"$post.{c.key.split('.')[-1]}.{m}"] = new[m]          # value of a modified argument right after the call (for specifications)
         if recv is not None and names[0] in c.modifies:
             if recv_node is None: raise Unsupported(f'mutating call {c.key} on a temporary')
             self.assign(recv_node, new[names[0]], st)
